@@ -275,3 +275,50 @@ def check_writer(prop, tier, replay):
 
 REGISTRY["C04"] = check_writer
 REGISTRY["C05"] = check_writer
+
+
+# ------------------------------------------------------------ C13 / C14 -------
+def _ts(MaxNodes, MaxNest, Vals, DocNames, AllCaps, WithInvalid="TRUE", Roots="RootsOA"):
+    return dict(MaxNodes=MaxNodes, MaxNest=MaxNest, Vals=Vals, DocNames=DocNames, Roots=Roots, AllCaps=AllCaps, WithInvalid=WithInvalid)
+
+TOSTRING_STAGES = {
+    "C13": {"quick":    [("caps-text", _ts(2, 3, "ValsText", "NamesAB", "TRUE")),
+                         ("caps-wide", _ts(1, 2, "ValsWide", "NamesOdd", "TRUE"))],
+            "thorough": [("caps-text", _ts(3, 3, "ValsText", "NamesAB", "TRUE")),
+                         ("caps-wide", _ts(2, 2, "ValsWide", "NamesOdd", "TRUE"))]},
+    "C14": {"quick":    [("siblings", _ts(5, 4, "ValsOne", "NamesAB", "FALSE", "FALSE")),
+                         ("values", _ts(2, 2, "ValsWide", "NamesOdd", "FALSE", "FALSE")),
+                         ("text", _ts(3, 3, "ValsText", "NamesAB", "FALSE", "FALSE"))],
+            "thorough": [("siblings", _ts(7, 4, "ValsOne", "NamesAB", "FALSE", "FALSE")),
+                         ("values", _ts(3, 3, "ValsWide", "NamesOdd", "FALSE", "FALSE")),
+                         ("text", _ts(4, 3, "ValsText", "NamesAB", "FALSE", "FALSE"))]},
+}
+ASSUME_TS = [
+    "Layer I (spec/ToStringImpl.tla) transcribes the two print callbacks incl. the snprintf/available bookkeeping; bound by comparing the stored high-water mark (drift reported)",
+    "printf %f is an uninterpreted table (spec/FmtTable.tla) generated from the platform libc by a program that does not link the library; re-generated and compared at every run",
+    "ASan with an exact-size text destination observes any byte stored at or beyond the capacity",
+]
+
+
+def fmt_table_guard():
+    """the committed FmtTable.tla must be what this platform's libc prints"""
+    exe = os.path.join(vlib.BUILD, "gen_fmttable")
+    os.makedirs(vlib.BUILD, exist_ok=True)
+    r = subprocess.run("gcc -O1 -o %s %s/gen_fmttable.c && %s" % (exe, vlib.HARNESS, exe), shell=True, capture_output=True, text=True)
+    if r.returncode != 0:
+        raise Infra("gen_fmttable failed: " + r.stderr[-500:])
+    if r.stdout != open(os.path.join(SPEC, "FmtTable.tla")).read():
+        raise Infra("spec/FmtTable.tla differs from what this platform's snprintf(%f) produces; regenerate it with harness/gen_fmttable.c")
+
+
+def check_tostring(prop, tier, replay):
+    if replay:
+        return replay_file(prop, replay, "replay_tostring")
+    t0 = time.time()
+    fmt_table_guard()
+    stages = [product_stage(prop, name, "MC_ToString.tla", "MC_ToString.cfg", c, replayer="replay_tostring") for name, c in TOSTRING_STAGES[prop][tier]]
+    return finish(prop, tier, stages, t0, ASSUME_TS)
+
+
+REGISTRY["C13"] = check_tostring
+REGISTRY["C14"] = check_tostring
